@@ -128,7 +128,10 @@ def class_methods_mro(repo: Repo, cls_name: str, rel_hint: Optional[str]) -> Tup
     for k in m.mro(c):
         for name, fi in k.methods.items():
             methods.setdefault(name, fi.node)
+        is_dc = any("dataclass" in d for d in k.deco_names())
         for name, v in k.attrs_val.items():
+            if is_dc and name in k.attrs_ann and "ClassVar" not in ast.unparse(k.attrs_ann[name]):
+                continue  # a dataclass field default is per-instance state, not a constant
             consts.setdefault(name, v)
         mod = m.mods.get(k.rel)
         if mod is not None:
